@@ -90,31 +90,24 @@ func (v *objectValidator) feed(jsonLexeme lexeme.LexEvent) ([]validator, bool) {
 
 func (v *objectValidator) feedObjectKeyEnd(jsonLexeme lexeme.LexEvent) {
 	v.lastFoundKeyLex = jsonLexeme
-	if _, ok := v.node_.(*schema.ObjectNode); !ok { // mixed node
-		panic(lexeme.NewLexEventError(
-			v.lastFoundKeyLex,
-			errors.Format(errors.ErrSchemaDoesNotSupportKey, v.lastFoundKeyLex.Value().Unquote().String())),
-		)
-	}
 	delete(v.requiredKeys, v.lastFoundKeyLex.Value().Unquote().String())
 }
 
 func (v *objectValidator) feedObjectValueBegin() ([]validator, bool) {
-	objectNode, ok := v.node_.(*schema.ObjectNode)
-	if !ok {
-		panic(errors.ErrImpossible)
-	}
+	// A mixed node ({type: "object", additionalProperties: true} in the "or"
+	// rule) has no properties: only "additionalProperties" can admit the key.
+	if objectNode, ok := v.node_.(*schema.ObjectNode); ok {
+		childNode, ok := objectNode.ChildByRawKey(v.lastFoundKeyLex.Value())
+		if ok {
+			return NodeValidatorList(childNode, v.rootSchema, v), false
+		}
 
-	childNode, ok := objectNode.ChildByRawKey(v.lastFoundKeyLex.Value())
-	if ok {
-		return NodeValidatorList(childNode, v.rootSchema, v), false
-	}
-
-	// child node not found on schema object
-	if key, ok := v.validateTypeRules(objectNode, v.lastFoundKeyLex); ok {
-		if child, ok := objectNode.Child(key, true); ok {
-			delete(v.requiredKeys, key)
-			return NodeValidatorList(child, v.rootSchema, v), false
+		// child node not found on schema object
+		if key, ok := v.validateTypeRules(objectNode, v.lastFoundKeyLex); ok {
+			if child, ok := objectNode.Child(key, true); ok {
+				delete(v.requiredKeys, key)
+				return NodeValidatorList(child, v.rootSchema, v), false
+			}
 		}
 	}
 	if c := v.node_.Constraint(constraint.AdditionalPropertiesConstraintType); c != nil {
